@@ -301,6 +301,19 @@ pub fn run(cfg: &Cfg, rep: &mut Rep) {
             };
             rep.class(if y0 < 0 { "rt/year-below-1" } else { "rt/year-above-9999" });
             check_roundtrip(rep, c, s);
+            // the same years in harness-built text with every decoration (a signed or five-digit year next to an offset
+            // sign, a 'Z', a fraction, a scale suffix): the decorations must not be read off the year
+            let mut f = fields_of(c, s);
+            let kd = r.below(10) as usize;
+            f.ns -= f.ns % 10u32.pow(9 - kd as u32);
+            let (tz, zulu) = match r.below(4) {
+                0 => (Some(r.range_i64(1, 1439) as i32), false),
+                1 => (Some(-(r.range_i64(0, 1439) as i32)), false),
+                2 => (None, true),
+                _ => (None, false),
+            };
+            rep.class(if y0 < 0 { "text/year-below-1" } else { "text/year-above-9999" });
+            check_text(rep, &f, kd, if r.chance(1, 5) { ' ' } else { 'T' }, tz, zulu, if r.bool() { Some(s) } else { None });
         }
     }
 }
